@@ -460,6 +460,19 @@ func derivesFromString(v ssa.Value, param ssa.Value) bool {
 					return rec(x.Y)
 				}
 			}
+		case *ssa.Call:
+			// a helper of the module that normalises the string: one string parameter, one string result, and
+			// every return derives from that parameter the same way (the parameter, a slice of it, const + it)
+			h := core.InfoOf(&x.Call).Static
+			if h != nil && h.Blocks != nil && h.Pkg != nil && strings.HasPrefix(h.Pkg.Pkg.Path(), core.ModulePath) &&
+				len(h.Params) == 1 && len(x.Call.Args) == 1 && h.Signature.Results().Len() == 1 && core.TypeStr(h.Signature.Results().At(0).Type()) == "string" {
+				for _, r := range core.Returns(h) {
+					if !derivesFromString(r.Results[0], h.Params[0]) {
+						return false
+					}
+				}
+				return rec(x.Call.Args[0])
+			}
 		case *ssa.UnOp:
 			if x.Op == token.MUL {
 				if al, ok := core.ResolveFree(x.X).(*ssa.Alloc); ok {
@@ -599,11 +612,71 @@ func c12Paths(c *core.Ctx) {
 			c.Undecided(key, s.join.Pos(), "path.Join whose result is neither stored to a URL path nor passed as a mux pattern (%s)", s.shape)
 		}
 	}
-	if nClient < 2 {
-		c.Fail("client:path-sites", token.NoPos, "expected path construction in both client entry points, found %d", nClient)
+	// coverage: both client entry points and both registrars reach such a site (in themselves, in a literal
+	// of theirs, or in a helper of the package they call), whatever the number of sites is
+	reaches := func(root *ssa.Function, role string) bool {
+		seen := map[*ssa.Function]bool{}
+		var visit func(f *ssa.Function, depth int) bool
+		visit = func(f *ssa.Function, depth int) bool {
+			if f == nil || f.Blocks == nil || seen[f] || depth > 3 {
+				return false
+			}
+			seen[f] = true
+			for _, s := range sites {
+				if s.fn == f && s.role == role {
+					return true
+				}
+			}
+			found := false
+			core.InstrsDeep(f, func(g *ssa.Function, in ssa.Instruction) {
+				for _, s := range sites {
+					if s.fn == g && s.role == role {
+						found = true
+					}
+				}
+				if cc := core.CallOf(in); cc != nil {
+					if h := core.InfoOf(cc).Static; h != nil && core.PkgIs(h, "httpgrpc") && !found {
+						if visit(h, depth+1) {
+							found = true
+						}
+					}
+				}
+			})
+			return found
+		}
+		return visit(root, 0)
 	}
-	if nServer < 4 {
-		c.Fail("server:path-sites", token.NoPos, "expected 4 server registration sites (Server.RegisterService and HandleServices × methods/streams), found %d", nServer)
+	nEP := 0
+	for _, ct := range channelTypes(p, "httpgrpc") {
+		for _, m := range []string{"Invoke", "NewStream"} {
+			if f := declaredMethod(p, ct, m); f != nil {
+				nEP++
+				c.Check(reaches(f, "client"), typeKey(ct)+"."+m+":path-site", f.Pos(), "the entry point builds its request path at a checked path.Join site", "the client entry point does not reach a path.Join site that builds the request path")
+			}
+		}
+	}
+	if nEP < 2 || nClient < 1 {
+		c.Fail("client:path-sites", token.NoPos, "expected a request-path construction reached from both client entry points (entry points: %d, sites: %d)", nEP, nClient)
+	}
+	nReg := 0
+	for _, fn := range p.LibFuncs("httpgrpc") {
+		if fn.Parent() != nil {
+			continue
+		}
+		isRegistrar := fn.Name() == "RegisterService" && fn.Signature.Recv() != nil
+		for _, pp := range fn.Params {
+			if sig, ok := pp.Type().Underlying().(*types.Signature); ok && sig.Params().Len() == 2 && core.TypeStr(sig.Params().At(0).Type()) == "string" && fn.Object() != nil && fn.Object().Exported() {
+				isRegistrar = true
+			}
+		}
+		if !isRegistrar {
+			continue
+		}
+		nReg++
+		c.Check(reaches(fn, "server"), core.FuncName(fn)+":path-site", fn.Pos(), "the registrar registers its handlers under patterns built at a checked path.Join site", "the registrar does not reach a path.Join site that builds the mux pattern")
+	}
+	if nReg < 2 || nServer < 2 {
+		c.Fail("server:path-sites", token.NoPos, "expected both registrars (the server type's RegisterService and the bulk helper) to reach pattern constructions for methods and for streams (registrars: %d, sites: %d)", nReg, nServer)
 	}
 	// no string concatenation used for patterns: every mux registration's pattern is a path.Join result
 	for _, fn := range p.LibFuncs("httpgrpc") {
